@@ -10,3 +10,5 @@
 (declare-fun hsres (Int Any Any) Any)
 ; gRPC status code carried by an error value
 (declare-fun codeOf (Any) Int)
+; casbin's decision for (enforcer, subject, object, action)
+(declare-fun casbinAllows (Int Any Any Any) Bool)
